@@ -214,11 +214,14 @@ class _GBuf(Py7zIO):
 
 
 class GateFactory(WriterFactory):
-    def __init__(self):
+    def __init__(self, unwritable=None):
         self.products = []
         self.lock = threading.Lock()
+        self.unwritable = unwritable
 
     def create(self, filename):
+        if filename == self.unwritable:
+            raise PermissionError(13, "output cannot be created (harness)", filename)
         gate("create", filename)
         b = _GBuf(filename)
         with self.lock:
@@ -259,8 +262,8 @@ def _patched_open(self, mode="r", *a, **kw):
     if c is None or c.outroot is None or "w" not in mode:
         return _ORIG_OPEN(self, mode, *a, **kw)
     s = str(self)
-    if not s.startswith(c.outroot + os.sep):
-        return _ORIG_OPEN(self, mode, *a, **kw)
+    if not s.startswith(c.outroot + os.sep) or os.path.isdir(s):
+        return _ORIG_OPEN(self, mode, *a, **kw)     # (a directory in the way: IsADirectoryError, nothing was done)
     name = os.path.relpath(s, c.outroot)
     parts = name.split(os.sep, 1)
     if len(parts) == 2 and parts[0].startswith("out"):
@@ -328,6 +331,8 @@ def build(case, d):
     dmg = case.get("damage")
     if dmg:
         for one in (dmg if isinstance(dmg, list) else [dmg]):
+            if "offset" not in one:
+                continue        # an unwritable output: nothing to do to the archive
             data = bytearray(open(path, "rb").read())
             pos = ah + pp[one["folder"]] + one["offset"]
             data[pos] ^= one["xor"]
@@ -363,8 +368,13 @@ def exc_tuple(e):
     return ["err", type(e).__name__, str(e)[:160]]
 
 
+def unwritable_of(case):
+    d = case.get("damage")
+    return d.get("unwritable") if isinstance(d, dict) else None
+
+
 def extract_controlled(path, lay, limit, order, target, workdir, password=None, mp=False, src="name", audit=False,
-                       two=False, timeout=8.0):
+                       two=False, timeout=8.0, unwritable=None):
     """run extractall under the scheduler.  target: 'file' | 'mem'.  src: 'name' | 'bytesio' | 'fileobj'.
     Returns dict(result, outs, run, audit...) ; with two=True two objects extract at once (results/outs are pairs)."""
     nf = len(lay["folders"])
@@ -372,6 +382,8 @@ def extract_controlled(path, lay, limit, order, target, workdir, password=None, 
     outroots = [os.path.join(workdir, "out%d" % i) for i in range(2 if two else 1)]
     for o in outroots:
         shutil.rmtree(o, ignore_errors=True)
+        if unwritable is not None and target == "file":
+            os.makedirs(os.path.join(o, unwritable))       # a directory where the member's file should go
     run = Run(order, start2folder, nf, outroot=workdir if target == "file" else None, timeout=timeout)
     results, outs, facs = [None] * len(outroots), [None] * len(outroots), [None] * len(outroots)
     pt = Patched(run, limit, audit_path=path if audit else None)
@@ -391,7 +403,7 @@ def extract_controlled(path, lay, limit, order, target, workdir, password=None, 
                     if target == "file":
                         z.extractall(path=outroots[i])
                     else:
-                        facs[i] = GateFactory()
+                        facs[i] = GateFactory(unwritable)
                         z.extractall(factory=facs[i])
                     results[i] = ["ok"]
                 finally:
@@ -430,7 +442,8 @@ def per_worker(trace):
 
 def reference(case, path, lay, workdir, target):
     """sequential extraction (archive opened from BytesIO): result, outputs, and each folder's operations"""
-    r = extract_controlled(path, lay, case["limit"], [], target, workdir, password=case.get("password"), src="bytesio")
+    r = extract_controlled(path, lay, case["limit"], [], target, workdir, password=case.get("password"), src="bytesio",
+                           unwritable=unwritable_of(case))
     name2folder = {}
     outn = py_outnames(lay["names"])
     for fi, ids in enumerate(lay["folders"]):
@@ -621,7 +634,16 @@ def sandbox_extract(arg):
     lim = arg["limit"]
     P.get_memory_limit = lambda: lim
     out = arg.get("out")
-    fac = arch.Collect()
+    uw = arg.get("unwritable")
+
+    class _Fac(arch.Collect):
+        def create(self, filename):
+            if filename == uw:
+                raise PermissionError(13, "output cannot be created (harness)", filename)
+            return super().create(filename)
+    fac = _Fac()
+    if uw is not None and out is not None:
+        os.makedirs(os.path.join(out, uw))
     try:
         if arg.get("src") == "bytesio":
             z = py7zr.SevenZipFile(io.BytesIO(open(arg["archive"], "rb").read()), "r", password=arg.get("password"))
@@ -656,7 +678,8 @@ def explore_case(case, model, rng, rec, budget, mp_runs, two_runs, workdir):
     dmg = case.get("damage")
     dfolder = dmg["folder"] if dmg else None
     rec.dist("folders", nf)
-    rec.dist("damage", "intact" if not dmg else "folder %d of %d (%s)" % (dfolder, nf, case["folders"][dfolder]["chain"]))
+    rec.dist("damage", "intact" if not dmg else "folder %d of %d (%s)" % (
+        dfolder, nf, "unwritable output" if "offset" not in dmg else case["folders"][dfolder]["chain"]))
 
     # output names: model vs Python transcription (py7zr itself is compared through the outputs below)
     mo = [bytes(x).decode() for x in model.call("par_outnames", [n.encode() for n in names])]
@@ -666,7 +689,8 @@ def explore_case(case, model, rng, rec, budget, mp_runs, two_runs, workdir):
         return
 
     # pre-screen damaged non-copy folders in a sandbox: a spinning decoder must not take the check down
-    if dmg and case["folders"][dfolder]["chain"] != "copy":
+    uw = unwritable_of(case)
+    if dmg and uw is None and case["folders"][dfolder]["chain"] != "copy":
         pre = run_sandboxed("harness.c13:sandbox_extract", {"archive": path, "limit": case["limit"], "src": "bytesio",
                                                             "out": os.path.join(workdir, "pre")}, timeout=20, mem_mb=2048)
         shutil.rmtree(os.path.join(workdir, "pre"), ignore_errors=True)
@@ -690,7 +714,7 @@ def explore_case(case, model, rng, rec, budget, mp_runs, two_runs, workdir):
         expected = {}
         members = case_members(case)
         k = 0
-        for fi, ms in enumerate(members):
+        for ms in members:
             for n, dta in ms:
                 expected[outn[k]] = dta
                 k += 1
@@ -740,7 +764,8 @@ def explore_case(case, model, rng, rec, budget, mp_runs, two_runs, workdir):
         rec.dist("interleavings", "exhaustive" if exhaustive else "sampled")
         audit_done = False
         for order in orders:
-            r = extract_controlled(path, lay, case["limit"], order, target, workdir, password=pw, audit=not audit_done)
+            r = extract_controlled(path, lay, case["limit"], order, target, workdir, password=pw, audit=not audit_done,
+                                   unwritable=uw)
             run = r["run"]
             rp = {"kind": "threads", "case": case, "target": target, "order": order}
             rec.count(tier_key + (target, tuple(order)), nontrivial=len(set(order)) > 1)
@@ -813,7 +838,9 @@ def explore_case(case, model, rng, rec, budget, mp_runs, two_runs, workdir):
                     "ops": counts, "first_order": orders[0] if orders else []})
 
         # processes (free running, sandboxed)
-        if mp_runs > 0:
+        if mp_runs > 0 and not (uw is not None and target == "file"):
+            # (an unwritable FILE is a directory in the way: the parent's utime/chmod pass succeeds on it, which the
+            #  model's post-pass does not describe; the factory variant has no post-pass)
             explore_mp(case, path, lay, target, ref, pref, ws, pre_w, onames, outn, model, rec, workdir, mp_runs)
 
         # two objects at once
@@ -846,8 +873,8 @@ def explore_mp(case, path, lay, target, ref, pref, ws, pre_w, onames, outn, mode
     for i in range(runs):
         out = os.path.join(workdir, "mpout")
         shutil.rmtree(out, ignore_errors=True)
-        arg = {"archive": path, "limit": case["limit"], "mp": True, "out": out if target == "file" else None}
-        t0 = time.time()
+        arg = {"archive": path, "limit": case["limit"], "mp": True, "out": out if target == "file" else None,
+               "unwritable": unwritable_of(case)}
         sb = run_sandboxed("harness.c13:sandbox_extract", arg, timeout=120, mem_mb=3000)
         rec.count(("mp", repr(short(case)), target, i), nontrivial=True)
         rec.dist("mp_runs", target + ("/damaged" if dmg else "/intact"))
@@ -907,7 +934,8 @@ def explore_two(case, path, lay, target, ref, pref, refops, ws, onames, outn, mo
     wsb = [[[a[0], a[1] + n] + a[2:] if a[0] in (0, 1) else a for a in w] for w in ws]
     audit_done = False
     for order in orders[:runs]:
-        r = extract_controlled(path, lay, case["limit"], order, target, workdir, two=True, audit=not audit_done)
+        r = extract_controlled(path, lay, case["limit"], order, target, workdir, two=True, audit=not audit_done,
+                               unwritable=unwritable_of(case))
         run = r["run"]
         rp = {"kind": "two", "case": case, "target": target, "order": order}
         rec.count(("two", repr(short(case)), target, tuple(order)), nontrivial=True)
@@ -1123,6 +1151,13 @@ def damages(case, lay_pp, rng, per_folder=1):
             c = dict(case)
             c["damage"] = {"folder": f, "offset": rng.randrange(size), "xor": 1 << rng.randrange(8)}
             out.append(c)
+    # an output that cannot be written, in a folder chosen at random
+    f = rng.randrange(len(case["folders"]))
+    cands = [n for n, h in case["folders"][f]["members"] if h]
+    if cands:
+        c = dict(case)
+        c["damage"] = {"folder": f, "unwritable": rng.choice(cands)}
+        out.append(c)
     return out
 
 
@@ -1256,7 +1291,8 @@ def replay(d):
                 for f in range(dmg["folder"] + 1, nf):
                     for i in lay["folders"][f]:
                         want[outn[i]] = pref["outs"][outn[i]]
-            got = extract_controlled(path, lay, case["limit"], r["order"], target, wd, two=(kind == "two"))
+            got = extract_controlled(path, lay, case["limit"], r["order"], target, wd, two=(kind == "two"),
+                                     unwritable=unwritable_of(case))
             print("sequential path:", ref["result"], hexouts(ref["outs"]))
             print("expected of the parallel path:", ref["result"][:2], hexouts(want))
             results = got["result"] if kind == "two" else [got["result"]]
@@ -1276,7 +1312,8 @@ def replay(d):
         if kind == "sequential":
             case = r["case"]
             path, lay = build(case, wd)
-            ref = extract_controlled(path, lay, case["limit"], [], r.get("target", "file"), wd, src="bytesio")
+            ref = extract_controlled(path, lay, case["limit"], [], r.get("target", "file"), wd, src="bytesio",
+                                     unwritable=unwritable_of(case))
             pcase = dict(case)
             pcase["damage"] = None
             pd = os.path.join(wd, "p")
@@ -1301,10 +1338,11 @@ def replay(d):
             case = r["case"]
             path, lay = build(case, wd)
             target = r["target"]
-            ref = extract_controlled(path, lay, case["limit"], [], target, wd, src="bytesio")
+            ref = extract_controlled(path, lay, case["limit"], [], target, wd, src="bytesio", unwritable=unwritable_of(case))
             out = os.path.join(wd, "mpout")
             sb = run_sandboxed("harness.c13:sandbox_extract", {"archive": path, "limit": case["limit"], "mp": True,
-                                                               "out": out if target == "file" else None}, timeout=120, mem_mb=3000)
+                                                               "out": out if target == "file" else None,
+                                                               "unwritable": unwritable_of(case)}, timeout=120, mem_mb=3000)
             print("sequential path:", ref["result"], hexouts(ref["outs"]))
             print("mp=True:", sb)
             if sb["status"] != "ok":
